@@ -154,6 +154,7 @@ def run(ctx):
         ctx.add("evaluations")
         classes.add((c["kind"], c["dtype"], c["path"], c["n"] > 8, c["scale"]))
     tiny_epsilon(ctx, rng, 120 if quick else 2000)
+    ctx.put("traces_validated_against_impl", len(cases) + int(ctx.coverage.get("dispatch_descriptors", 0)))
     ctx.put("distinct_nontrivial", len(classes))
     ctx.put("rule", "MC: EigenPositivity / UpperBound by order reasoning on the transfer functions for every rational spectrum of a grid that "
                     "includes negative, zero and repeated eigenvalues; rejection table; O: concretised matrices n<=64 (32 quick), float32/64, "
